@@ -214,3 +214,21 @@ Fixpoint run_gens (r : lr) (gens : list (list bytes)) : list (list obs * list by
   end.
 
 Definition gen_lines (x : list obs * list bytes) : list bytes := emitted (fst x) ++ snd x.
+
+(* ---------------- datagram reads ---------------- *)
+(* A datagram socket hands ONE datagram to each Read: the kernel copies at most
+   len(p) bytes and DISCARDS the rest of the datagram (recvfrom without
+   MSG_PEEK).  [run_dg] is the reader fed by such a source. *)
+Fixpoint run_dg (r : lr) (dgs : list bytes) : list obs * lr :=
+  match dgs with
+  | [] => ([], r)
+  | c :: rest =>
+      let sp := space (grow r) in
+      let n := Nat.min (length c) sp in
+      let (ls, r') := read_and_send r (firstn n c) in
+      let (os, r'') := run_dg r' rest in
+      (mk_obs sp n ls (pending r') :: os, r'')
+  end.
+
+Definition deliver_dg (sz : nat) (dgs : list bytes) : list bytes :=
+  let (os, r) := run_dg (new_lr sz) dgs in emitted os ++ finish r.
